@@ -13,7 +13,7 @@
 static size_t v_strlen(const char *b, size_t from, size_t cap)
 {
         size_t i, n = 0;
-        for (i = 0; i < H_BUFSZ; i++)
+        for (i = 0; i < H_MAXBUF; i++)
                 if (i >= from && i < cap) {
                         if (b[i] == 0)
                                 return n;
